@@ -152,7 +152,8 @@ def running(m):
 
 def freq_ok(self):
     Q = self.execution_queue
-    return all(Q[i].frequency >= 1 for i in range(len(Q)))
+    S = self.systems
+    return all(Q[i].frequency >= 1 for i in range(len(Q))) and all(S[k].frequency >= 1 for k in S)
 
 
 def exec_post_running(self, throw_error, old):
@@ -178,9 +179,9 @@ def exec_complete_err(self, throw_error, old):
     return throw_error and not running(old.self.model)
 
 
-def exec_inv_basic(self, throw_error, old, i):
+def exec_inv_basic(self, throw_error, old, i, snap):
     return (0 <= i and i <= len(self.execution_queue) and self.timestep == old.self.timestep
-            and running(old.self.model))
+            and running(old.self.model) and same_elems(snap, self.execution_queue))
 
 
 def exec_inv_runs(self, throw_error, old, i):
@@ -205,10 +206,11 @@ contract('Core.SystemManager.execute_systems',
          requires=[SM_rep, freq_ok],
          ensures={'C02': [exec_post_running, exec_post_runs], 'C06': [exec_post_not_running]},
          raises={'ModelCompleteError': dict(when=exec_complete_err, props=['C06'])},
-         modifies=['self.timestep'] + USER_CODE_MODIFIES + SCHED_GHOSTS,
+         modifies=['self.timestep', 'new:list[ref:System]'] + USER_CODE_MODIFIES + SCHED_GHOSTS,
          loops={0: dict(invariant=[(exec_inv_basic, ['C01', 'C02', 'C06']), (exec_inv_runs, ['C02']),
                                    (exec_inv_last, ['C01'])],
-                        index='i', modifies=USER_CODE_MODIFIES + SCHED_GHOSTS, props=['C01', 'C02', 'C06'])},
+                        index='i', iter_name='snap', modifies=USER_CODE_MODIFIES + SCHED_GHOSTS,
+                        props=['C01', 'C02', 'C06'])},
          ghost_init='sched_ghost_init',
          props=['C01', 'C02', 'C06'])
 
@@ -321,9 +323,9 @@ contract('Core.Model.execute',
          requires=[model_exec_requires],
          ensures={'C02': [model_exec_post], 'C06': [model_exec_post_complete]},
          raises={'ValueError': dict(when=model_exec_bad_value)},
-         modifies=['self.systems.timestep'] + USER_CODE_MODIFIES + SCHED_GHOSTS,
+         modifies=['self.systems.timestep', 'new:list[ref:System]'] + USER_CODE_MODIFIES + SCHED_GHOSTS,
          loops={0: dict(invariant=[(model_exec_inv, ['C02', 'C06'])], index='_',
-                        modifies=['self.systems.timestep'] + USER_CODE_MODIFIES + SCHED_GHOSTS)},
+                        modifies=['self.systems.timestep', 'new:list[ref:System]'] + USER_CODE_MODIFIES + SCHED_GHOSTS)},
          cases=[dict(name='int', params={'n': 'int'})],
          props=['C02', 'C06'])
 
@@ -975,3 +977,97 @@ contract('Core.Agent.remove_component', variant='resident',
          raises={'ComponentNotFoundError': dict(when=remove_component_absent)},
          modifies=['self.components'], native=False, props=['C03'],
          expect_refuted=True, notes='expected refuted: open finding F2')
+
+
+# ------------------------------------------------------------------------------------------------ C05: dynamic view
+REG.ghosts['removed'] = 'map[bool]'      # systems unregistered at some point of the current timestep
+REG.ghosts['added'] = 'map[bool]'        # systems (re-)registered at some point of the current timestep
+
+
+def reg_in(x, S):
+    return x.id in S and S[x.id] is x
+
+
+def dyn_summary(self, caller, old):
+    """Assumed summary of any sequence of add_system / remove_system calls made by user code (Appendix B)."""
+    S = caller.self.systems
+    S0 = old.caller.self.systems
+    return (SM_rep(caller.self) and freq_ok(caller.self)
+            and all(reg_in(S0[k], S) or ghost().removed[S0[k]] for k in S0)
+            and all(reg_in(S[k], S0) or ghost().added[S[k]] for k in S)
+            and all(not ghost().removed[S[k]] or ghost().added[S[k]] for k in S))
+
+
+def mon_norerun(self, caller):
+    """C05: no system runs twice in one timestep; a system removed before its turn (and not re-added) does not run."""
+    return ghost().runs[self] == 0 and (not ghost().removed[self] or ghost().added[self])
+
+
+def mon_order_dyn(self, caller):
+    """C05: systems registered for the whole timestep run in priority / registration order."""
+    S0 = caller.old.self.systems
+    return (is_none(ghost().last) or not reg_in(ghost().last, S0) or not reg_in(self, S0)
+            or before(ghost().last, self, S0))
+
+
+def mon_due_dyn(self, caller):
+    return due(self, caller.self.timestep)
+
+
+DYN_MODS = USER_CODE_MODIFIES + ['caller.self.systems', 'caller.self.execution_queue']
+
+contract('Core.System.execute', variant='dynamic',
+         params={'self': 'ref:System'},
+         kind='abstract',
+         monitor={'C05': [mon_norerun, mon_order_dyn, mon_due_dyn, mon_running]},
+         modifies=DYN_MODS,
+         ensures={'C05': [dyn_summary]},
+         effects='system_execute_dyn',
+         assumes=['System.execute is user code: assumed op-sequence summary of DESIGN Appendix B (dynamic view)'])
+
+
+def exec_dyn_post(self, throw_error, old):
+    """Every system registered for the whole timestep and due ran exactly once (while the model kept running)."""
+    S = self.systems
+    S0 = old.self.systems
+    t0 = old.self.timestep
+    return (implies(running(old.self.model), self.timestep == t0 + 1)
+            and all(implies(reg_in(S0[k], S) and not ghost().removed[S0[k]] and due(S0[k], t0) and running(self.model),
+                            ghost().runs[S0[k]] == 1) for k in S0))
+
+
+def exec_dyn_inv(self, throw_error, old, i, snap):
+    S = self.systems
+    Q0 = old.self.execution_queue
+    t0 = old.self.timestep
+    return (0 <= i and i <= len(snap) and same_elems(snap, Q0) and self.timestep == t0
+            and running(old.self.model) and SM_rep(self) and freq_ok(self)
+            and all(ghost().runs[snap[j]] == 0 for j in range(i, len(snap)))
+            and all(not ghost().removed[S[k]] or ghost().added[S[k]] for k in S)
+            and all(reg_in(snap[j], S) or ghost().removed[snap[j]] for j in range(len(snap)))
+            and all(implies(reg_in(snap[j], S) and not ghost().removed[snap[j]] and due(snap[j], t0)
+                            and running(self.model), ghost().runs[snap[j]] == 1) for j in range(0, i))
+            and (is_none(ghost().last) or index_of(snap, ghost().last) < i))
+
+
+contract('Core.SystemManager.execute_systems', variant='dynamic',
+         params={'self': 'ref:SystemManager', 'throw_error': 'bool'},
+         requires=[SM_rep, freq_ok],
+         ensures={'C05': [exec_dyn_post]},
+         raises={'ModelCompleteError': dict(when=exec_complete_err, props=['C05'])},
+         modifies=['self.timestep', 'self.systems', 'self.execution_queue', 'new:list[ref:System]']
+         + USER_CODE_MODIFIES + SCHED_GHOSTS + ['ghost:removed', 'ghost:added'],
+         loops={0: dict(invariant=[(exec_dyn_inv, ['C05'])], index='i', iter_name='snap',
+                        modifies=['self.systems', 'self.execution_queue'] + USER_CODE_MODIFIES + SCHED_GHOSTS
+                        + ['ghost:removed', 'ghost:added'], props=['C05'])},
+         ghost_init='sched_ghost_init_dyn', view='dynamic', native=False,
+         props=['C05'])
+
+
+# ------------------------------------------------------------------------------------------------ engine lemmas
+def mod_neg_zero(a, f):
+    """For a positive divisor, a is a multiple of f iff -a is (instances are used by the engine for symbolic %)."""
+    return f <= 0 or ((a % f == 0) == ((0 - a) % f == 0))
+
+
+lemma('mod_neg_zero', ['C02', 'C05'], mod_neg_zero, params={'a': 'int', 'f': 'int'}, engine_lemma=True)
